@@ -268,6 +268,18 @@ theorem c05_classify_render_time_rss (n : List Char) (hn : Digits n) (tail : Lis
   simp [numeralVal_int n hn.2]
 
 
+/-- the documented shapes are inhabited: the lines of the Savina and JMH harnesses -/
+example : (SavinaLine.mk "a.B".toList " ".toList "0".toList "\t ".toList "12".toList "50".toList).Valid :=
+  ⟨⟨by decide, by decide⟩, ⟨by decide, by decide⟩, ⟨by decide, by decide⟩, ⟨by decide, by decide⟩,
+   ⟨by decide, by decide⟩, ⟨by decide, by decide⟩⟩
+
+example : (JMHLine.mk true "   ".toList "1".toList " ".toList "1234".toList (some "567".toList) " ".toList
+    "ops/s".toList).Valid ∧ crTail "\r".toList ∧ crTail [] :=
+  ⟨⟨⟨by decide, by decide⟩, ⟨by decide, by decide⟩, ⟨by decide, by decide⟩, ⟨by decide, by decide⟩,
+    by intro f hf; cases hf; exact ⟨by decide, by decide⟩, ⟨by decide, by decide⟩,
+    ⟨by decide, by decide, stopsAt_cons _ _ _ (by decide)⟩⟩,
+   stopsAt_cons _ _ _ (by decide), stopsAt_nil _⟩
+
 /-! ## whole outputs -/
 
 /-- `parse_render_roundtrip` for SavinaLog: any sequence of documented lines (each possibly followed
